@@ -95,3 +95,14 @@ MANIFEST_TEXT = {
             "text": "No system function is pure; deny-by-default backend returns Err / inert values for every default method; purity gate at leaves.",
             "note": "that every host effect goes through the trait, and comptime backend choice, undecided"},
 }
+
+C09_QUICK_PREFIXES = [
+    "C05.e1.sort.",            # unsafe ptr::swap_nonoverlapping blocks of the sort kernels
+    "C19.",                    # span arithmetic, update_loc, split-identifier columns (F6)
+    "C08.e1.rotate.",          # rotate amount arithmetic (F10)
+    "C08.e1.char_arith.", "C06.e1.add.byte_char", "C06.e1.sub.byte_char",   # char::from_u32 / casts
+    "C02.e1.signature.", "C02.e2.sig.", "C02.e2.stack.", "C03.e1.signature.",  # u16 / i32 truncation and overflow
+    "C07.e3.helper.rotate.3", "C11.e3.helper.remove_n.3", "C07.e3.helper.dup_values.3", "C07.e3.helper.copy_n_down.3",  # slice index / rotate preconditions
+    "C16.e3.map.",             # probe loops: index arithmetic, `*len -= 1`
+    "C17.", "C08.e3.",
+]
